@@ -1,6 +1,7 @@
 """C13 - the high-fidelity force model equals an independent reference at every state / epoch.
 
 Lattice explorer on ``SpecialPerturbations._differentialEquation`` (total, per-term differences, (6,K) layouts) plus
+the same through ``dynamicsFactory`` + a real ``ScenarioClock`` that already shows T elapsed seconds, plus
 direct lattices on every anchored helper: Cunningham V/W and single-coefficient accelerations, coefficient loading,
 third-body / SRP / relativity formulae, visible-Sun fraction, Chebyshev ephemerides (continuity over every segment edge
 of the Earth-orientation span on a coarse (84 s) and a fine (1 ulp of the Julian date .. 10 s, both sides) lattice, own
@@ -68,9 +69,23 @@ RULE = (
     "each row bitwise equal to the single-epoch call and within the own-evaluation tolerance of the reference, shape "
     "(N,3) | (3,), input untouched; "
     "the epoch alphabet of the total/term lattices contains instants 1 ulp / 1 ms / 50 ms / 0.3 s / 1 s before and 1 ms / "
-    "50 ms after a 4-, 16- and 32-day series boundary; analytic Sun/Moon on "
+    "50 ms after a 4-, 16- and 32-day series boundary, and the calendar branch points of the Julian date -> calendar "
+    "conversion behind the Earth-orientation row / sidereal angle: 30 Dec 12:00, 31 Dec 05:59:30 / 06:00:30 / 12:00 / "
+    "23:59:30 and 1 Jan 00:00:30 of the leap years 2016 and 2020 and of a common year (thorough: every year 2014-2021), "
+    "31 Dec 18:00:30 of both leap years, both sides (30 s) of the year-estimate threshold of 31 Dec 2014 / 2017 / 2018 / "
+    "2021 (18:00 / 12:00 / 18:00 / 12:00), 31 Dec 2019 23:59:30, 31 Jan 23:59:30 / 1 Feb 00:00:30 / 29 Feb 12:00 / 1 Mar "
+    "00:00:30 of a leap year, 28 Feb 23:59:30 / 1 Mar 00:00:30 of a common year, last and first half minute of an "
+    "ordinary day - each reached from a start 3 h or 8 h earlier (previous day / year), all of them in the perturbation "
+    "lattice (tesseral field at >= 3 of the 5 altitudes), eight of them in the geopotential lattice, two in the (6,K) "
+    "lattices, one in the layout lattice; factory: the dynamics object built by the real dynamicsFactory from a real "
+    "ScenarioClock (in-memory epoch table) ticked to T in {0, 300, 600, 3600, 10800, 86400, 259200} s for 4 scenario "
+    "starts (seeded day, first EOP day, 30 Dec 18:00 of a leap year, a start with milliseconds) x 4 configurations "
+    "(4x4 + Sun/Moon + SRP + GR, 8x5 + five bodies + SRP, zonal + Moon + GR, 3x1 alone; own platform mass / area / "
+    "reflectivity each) x 5 states of different Sun-geometry class / altitude, evaluated at scenario time T + {0, 150, "
+    "675} s against the reference at the absolute instant start + T + t and, bitwise, against the same configuration "
+    "constructed directly with the Julian date of the start; analytic Sun/Moon on "
     "a 6-hour grid, constants. non-trivial = the configuration has at least one perturbation beyond J2 (total), the "
-    "oracle term exceeds 100x the comparison tolerance (term), K>=2 (batch), N>=2 epochs (batched epochs), n>=2 (V/W), "
+    "oracle term exceeds 100x the comparison tolerance (term), K>=2 (batch), built at T > 0 (factory), N>=2 epochs (batched epochs), n>=2 (V/W), "
     "m>=1 or n>=3 (single "
     "coefficients, coefficient loading), "
     "partial or full occultation (fraction), instants at / next to a segment edge (ephemerides), every grid instant "
@@ -89,6 +104,10 @@ ASSUMPTIONS = [
     "values (1e-5 / 1e-7 relative); Earth GM and radius, c, solar constant and solar radius are the oracle's own literals",
     "relativity reference = Schwarzschild term of IERS Conventions (2010) eq. 10.12 (beta = gamma = 1)",
     "finite thrust is absent (dynamics.finite_thrust is None) and collision checking is not part of the property",
+    "factory family: the scenario time handed to a dynamics object is seconds since the scenario START (what "
+    "Agent / Scenario propagate with), whenever the object was built; ScenarioClock itself (time, start date) is trusted",
+    "calendar epochs: the reference reaches the instant as start datetime + timedelta (no Julian date -> calendar "
+    "conversion of its own); the 30 s offsets keep every instant 5 orders away from the 1e-4 s either-way window",
     "visible-fraction comparisons allow 32x the round-off conditioning of the textbook arccos lens formula "
     "(u b^3 / (y pi a^2): 7e-8 in mid penumbra at 200 km altitude, larger within 1e-4 of the penumbra edges, 1e-10 at GEO)",
 ]
@@ -514,6 +533,20 @@ def bounds(tier, seed):
         "latitudes_deg": LATS,
         "longitudes_deg": LONS,
         "epochs": [[e[0], e[1], e[2]] for e in _epochs(tier, seed)],
+        "calendar_epochs": {
+            "perturbation_lattice": [e[0] for e in _epochs(tier, seed) if _is_cal(e)],
+            "geopotential_lattice": _cal_geo_labels(tier, seed),
+            "batch_lattices": _cal_geo_labels(tier, seed)[:2],
+            "layout_lattice": _cal_geo_labels(tier, seed)[:1] + (_cal_geo_labels(tier, seed)[2:] if tier == "thorough" else []),
+        },
+        "factory": {
+            "elapsed_clock_time_s": list(FACTORY_T),
+            "evaluated_at_T_plus_s": list(FACTORY_DT),
+            "clock_step_s": "%g (T <= 10800 s), 3600 above" % FACTORY_CLOCK_STEP,
+            "starts": [[lab, st.isoformat()] for lab, st, _ in _factory_starts(seed)],
+            "configurations": [list(c[:3]) + ["+".join(c[3]) or "none", c[4], c[5], list(c[6]), c[7]] for c in FACTORY_CFG],
+            "states": [[g, ALT_RADII[ai]] for g, ai in FACTORY_STATES],
+        },
         "third_body_subsets": len(_subsets(tier)),
         "srp": [False, True],
         "gr": [False, True],
